@@ -419,3 +419,31 @@ Qed.
 Example blocked_state_exists :
   exists n s, run (init_sys 0 None [] enf0 [OAdd 1 1 10; OAdd 1 2 10]) [(T 0%nat, 0%nat); (T 0%nat, 0%nat); (T 1%nat, 0%nat); (T 1%nat, 0%nat)] = BlockedAt n s.
 Proof. eexists _, _. vm_compute. reflexivity. Qed.
+
+(** The lock-order argument behind deadlock freedom, as a statement of its own: whoever holds a
+    mailbox lock across a scheduling point is parked at mem.add.visible, inside AddMessage's
+    critical section — never at a send to / wait for the size enforcer, and never the enforcer. *)
+Definition at_rendezvous (p : pc) : bool :=
+  match p with
+  | PAddEvict _ _ _ _ _ | PAddRegister _ _ _ | PRemoveEnf _ _ _ | PPurgeSwapped _ _ | PPurgeEnf _ _ _ _ => true
+  | _ => false
+  end.
+
+Theorem mem_no_lock_across_rendezvous : forall cap max ops sched,
+  match run (init_sys cap max [] enf0 ops) sched with
+  | Fin s | BlockedAt _ s | CrashedAt _ s =>
+      (forall mb t, x_lock (getx mb s) = Some t -> exists nm, nth_error (s_thr s) t = Some (PAddVisible mb nm)) /\
+      (forall t p mb, nth_error (s_thr s) t = Some p -> at_rendezvous p = true -> x_lock (getx mb s) <> Some t)
+  end.
+Proof.
+  intros cap max ops sched.
+  pose proof (run_from_reach (init_sys cap max [] enf0 ops) sched 0 _ (reach_refl _)) as H. unfold run.
+  assert (G : forall s, reach (init_sys cap max [] enf0 ops) s ->
+     (forall mb t, x_lock (getx mb s) = Some t -> exists nm, nth_error (s_thr s) t = Some (PAddVisible mb nm)) /\
+     (forall t p mb, nth_error (s_thr s) t = Some p -> at_rendezvous p = true -> x_lock (getx mb s) <> Some t)).
+  { intros s R. assert (HL : invL s).
+    { revert s R. apply reach_ind_inv; [apply init_invL | intros; eapply invL_step; eauto]. }
+    split; [exact HL|]. intros t p mb Hp Hr Hl. destruct (HL _ _ Hl) as [nm Hn].
+    rewrite Hn in Hp. inversion Hp; subst. discriminate. }
+  destruct (run_from 0 _ sched) as [s|n s|n s]; [apply G; exact H | apply G; exact H | apply G; apply H].
+Qed.
